@@ -34,6 +34,13 @@
   layer lists under the hypotheses of the product rule; `grad_twice` — the gradient of the sum that
   `grad` returned evaluates to D'(D(eval)) (second and, iterating, higher order, mixed partials);
   the executable instance `grad_poly_sum`, `grad_poly_twice` (driver commands `psumgrad`, `pgrad2`).
+  JACOBIAN KEYWORDS (Model/ParamJac.lean: Circuit.jacobian, circuit.py:503-534, with its `**params`
+  and its three branches — no variable, exactly one, several): `jacobian_no_variable`,
+  `jacobian_one_variable` — with one variable the jacobian IS `grad(x, **params)`, keywords
+  included; `jacobian_stacks_gradients_with_same_keywords` — for any number of variables, block k
+  of the evaluation of the jacobian is the evaluation of the gradient w.r.t. the k-th variable
+  taken with the SAME keywords; a one-variable branch that drops the keywords is refuted on a
+  witness (`jacobian_dropping_keywords_is_wrong`).
   tensor.Sum has NO grad of its own in discopy 0.3.5: the inherited Diagram.grad sees a box without
   free symbols and returns the empty sum (finding F4s) — `tensor_sum_grad_as_found`, and the
   theorems above are about the repaired transcription (`sumHasGrad = true`).  A rule that
@@ -49,6 +56,7 @@
 import Proofs.ParamJet
 import Proofs.PolyBubble
 import Proofs.ParamSum
+import Proofs.ParamJac
 
 namespace DV.C15
 open DV.Param
@@ -177,6 +185,43 @@ theorem jacobian_order {R : Type} [Zero R] (c : Nat) (grads : List (Mat R)) (i k
     (hj : j < c) (g : Mat R) (hk : grads[k]? = some g) :
     jacobianMat c grads i (k * c + j) = g i j :=
   jacobianMat_entry c grads i k j hj g hk
+
+/-! ### Circuit.jacobian and its keyword arguments -/
+
+/-- No variable: the empty sum, whatever the keywords. -/
+theorem jacobian_no_variable {V K T : Type} (grad : V → K → List T) (kw : K) :
+    circuitJacobian grad [] kw = [] := rfl
+
+/-- Exactly one variable: the jacobian is the gradient taken WITH THE SAME KEYWORDS (no digit
+    wire is added). -/
+theorem jacobian_one_variable {V K T : Type} (grad : V → K → List T) (x : V) (kw : K) :
+    circuitJacobian grad [x] kw = (grad x kw).map JTerm.bare := rfl
+
+/-- For any number of variables, block `k` of the evaluation of the jacobian is the evaluation of
+    the gradient with respect to the k-th variable taken with the same keywords (`val` = any fixed
+    entry of the evaluation of a term, additive over formal sums). -/
+theorem jacobian_stacks_gradients_with_same_keywords {V K T R : Type} [AddCommMonoid R]
+    (grad : V → K → List T) (kw : K) (val : T → R) (vars : List V) (k : Nat) (x : V)
+    (h : vars[k]? = some x) :
+    ((circuitJacobian grad vars kw).map (JTerm.blockVal val k)).sum = ((grad x kw).map val).sum :=
+  circuitJacobian_block grad kw val vars k x h
+
+/-- A gradient with two modes (`true` = parameter shift: two terms; `false` = pure: one term). -/
+def jacWitnessGrad (x : Nat) (mixed : Bool) : List Nat := if mixed then [x, x + 1] else [x]
+
+/-- A one-variable branch that does not forward the keywords returns the default gradient where the
+    pure one was asked; with zero or two variables it cannot be told from the code. -/
+theorem jacobian_dropping_keywords_is_wrong :
+    circuitJacobianDroppingKeywords jacWitnessGrad true [7] false ≠ circuitJacobian jacWitnessGrad [7] false
+    ∧ circuitJacobianDroppingKeywords jacWitnessGrad true [] false = circuitJacobian jacWitnessGrad [] false
+    ∧ circuitJacobianDroppingKeywords jacWitnessGrad true [7, 8] false
+        = circuitJacobian jacWitnessGrad [7, 8] false
+    ∧ circuitJacobianDroppingKeywords jacWitnessGrad true [7] true = circuitJacobian jacWitnessGrad [7] true := by
+  decide
+
+example : circuitJacobian jacWitnessGrad [7, 8] false = [JTerm.row 0 2 7, JTerm.row 1 2 8] := by decide
+example : ((circuitJacobian jacWitnessGrad [7, 8] true).map (JTerm.blockVal (fun t : Nat => Int.ofNat t) 1)).sum = 17 :=
+  by decide
 
 /-! ### per-gate rules -/
 
